@@ -39,6 +39,14 @@ CHECKS = [
     chk("C07", "proof",
         "Modular proofs (CBMC dfcc contract enforcement, symbolic array sizes up to 30000) that the functions under contract reject invalid arguments with a non-zero code and an empty frame (conditional assigns), with all pointer/bounds/overflow checks discharged.",
         NOTE, TECH, "DESIGN.md 4/C07"),
+    chk("C10", "other",
+        "Bounded contract check of the exact literal scanner mpq_EGlpNumReadStrXc and of ILLget_value on CONSTRUCTED well-formed literals (integers, decimals, exponent forms, signed, fractions p/q of such numbers): the whole literal is consumed and the value is exactly the rational it spells (computed independently by integer arithmetic); omitted coefficient is 1; a zero divisor is rejected. Bounds (digits, exponent) stated per group.",
+        NOTE + "Not decided: grammar-level rules (keyword spellings, comments, line structure, sections), default-bound rules and repeated-term merging unless a group for them is listed in the evidence; digit counts beyond the stated bound.",
+        TECH, "DESIGN.md 4/C10"),
+    chk("C11", "other",
+        "Per-function bounded contract checks of reader functions for every byte content of their (capacity-reduced) buffers: the literal scanner on arbitrary short strings (no division by zero, no out-of-bounds read), the three error formatters for every formatted length (no write outside the 256-byte buffer, error reaches the collector), next_line progress (consumes a line or sets eof).",
+        NOTE + "Not decided: whole-file behaviour, compressed streams, reader functions not listed in the evidence; buffer capacity ILL_namebufsize is reduced from 131072 to 512 in the scratch copy for these groups (one #define line, must-fire).",
+        TECH, "DESIGN.md 4/C11"),
     chk("C14", "proof",
         "Frame half ('writing does not consume the basis'): QSwrite_basis under contract with an empty assigns/frees clause on everything reachable from the problem (dfcc), loops of the basis conversion closed by loop contracts, symbolic basis sizes up to 30000; the problem's basis, status and factorization flag are unchanged whatever the writer returns.",
         NOTE + "Not decided: the textual round trip (ILLlib_writebasis / ILLlib_readbasis: file text, name lookup), only listed where a group for it appears in the evidence.",
@@ -61,4 +69,4 @@ NOT_APPLICABLE = [
     {"property_id": "C09", "reason": "same as C08 for the MPS format"},
     {"property_id": "C15", "reason": "relation between two solves of different inputs (2-safety); not a single-call contract"},
 ] + [{"property_id": p, "reason": _NYB} for p in
-     ["C10", "C11", "C12", "C13", "C17", "C18", "C19"]]
+     ["C12", "C13", "C17", "C18", "C19"]]
